@@ -818,7 +818,18 @@ fn generate_function_inner(
                     let layer = context.module.type_registry.get_type_layer(*id);
                     let name = if let ir::TypeLayer::Struct(id) = layer {
                         let left_name = context.get_struct_name(id).unwrap();
-                        Some(Located::none(left_name.to_string()))
+                        // Two parameters replaced by the same struct must not both declare its name
+                        let already_declared = template_params.iter().any(|p| match p {
+                            ast::TemplateParam::Type(tp) => {
+                                tp.name.as_ref().is_some_and(|n| n.node == left_name)
+                            }
+                            _ => false,
+                        });
+                        if already_declared {
+                            None
+                        } else {
+                            Some(Located::none(left_name.to_string()))
+                        }
                     } else {
                         None
                     };
